@@ -61,19 +61,23 @@ def generate(rng, tier):
         nk = 1 if op[0] == 'sort' else rng.choice([1, 1, 2, 3])
         seqs = [gen_seq(rng, op) for _ in range(nk * rng.choice([1, 1, 2]))]
         cases.append({'op': op, 'seqs': seqs, 'order': rng.random()})
-    for _ in range({'quick': 16, 'thorough': 400, 'search': 4}[tier]):
-        # scale: parameters and sequence lengths beyond small-int / buffer / type-width thresholds (257+, 300, 1000+)
+    # scale: parameters and sequence lengths beyond small-int / buffer / type-width thresholds (257+, 300, 1000+); a
+    # fixed list of operators, every one in every run, on sequences around and beyond twice the parameter
+    def scale_ops():
         big = rng.choice([257, 258, 300, 512, 1000])
-        op = rng.choice([['take', big], ['lag', big], ['lag', rng.choice([129, 200])], ['batch', big], ['batch', rng.choice([128, 255, 256])],
-                         ['pad_start', big, enc(77)], ['pad_end', big, enc(None)], ['distinct', None], ['duc', None],
-                         ['first'], ['last'], ['start_with', [enc(i) for i in range(big)]]])
-        nk = rng.choice([1, 2])
-        seqs = []
-        for _k in range(nk):
-            n = rng.choice([big - 1, big, big + 1, 2 * big, 2 * big + 7, 40])
-            m = rng.choice([3, 300, 100000])
-            seqs.append([enc((i * 7 + _k) % m) for i in range(n)])
-        cases.append({'op': op, 'seqs': seqs, 'order': rng.random(), 'scale': True})
+        return [['take', big], ['lag', big], ['lag', rng.choice([129, 200])], ['batch', big], ['batch', 257], ['batch', rng.choice([128, 255, 256])],
+                ['pad_start', big, enc(77)], ['pad_end', big, enc(None)], ['distinct', None], ['duc', None],
+                ['first'], ['last'], ['start_with', [enc(i) for i in range(big)]], ['lag', 300], ['take', 257]]
+    for _ in range({'quick': 1, 'thorough': 25, 'search': 0}[tier]):
+        for op in scale_ops():
+            big = op[1] if op[0] in ('take', 'lag', 'batch', 'pad_start', 'pad_end') else 300
+            nk = rng.choice([1, 2])
+            seqs = []
+            for _k in range(nk):
+                n = rng.choice([2 * big + 7, 2 * big, big + 1]) if _k == 0 else rng.choice([big - 1, big, 40])
+                m = rng.choice([3, 300, 100000])
+                seqs.append([enc((i * 7 + _k) % m) for i in range(n)])
+            cases.append({'op': op, 'seqs': seqs, 'order': rng.random(), 'scale': True})
     return cases
 
 
